@@ -221,7 +221,12 @@ def main(argv):
     if cmd == "gen":
         u = props.UNITS[argv[2]]
         canary = int(argv[3]) if len(argv) > 3 else None
-        lines, infos = assemble.assemble(os.path.join(VERIF, u["template"]), canary=canary)
+        if u.get("generator"):
+            from . import gen_derived
+            tpath, _ = gen_derived.make(**u["generator"])
+        else:
+            tpath = os.path.join(VERIF, u["template"])
+        lines, infos = assemble.assemble(tpath, canary=canary)
         os.makedirs(unitmod.GEN, exist_ok=True)
         path = os.path.join(unitmod.GEN, argv[2] + "_dbg.rs")
         open(path, "w").write("\n".join(l.text for l in lines) + "\n")
